@@ -211,6 +211,102 @@ theorem read_at_error (s : Script) (k : Nat) (hs : s.errAt = some k) (st : RStat
     read s st n = (0, some .sentinel, st) := by
   unfold Reader.read; simp [hs, hp]
 
+/-- one `Read` strictly before the failure offset: no error yet, never past the offset -/
+theorem read_before_err (s : Script) (k : Nat) (hs : s.errAt = some k) (hk : k < s.content.length)
+    (st : RState) (req : Nat) (hreq : 0 < req) (hp : st.pos < k) :
+    ∃ d st', Reader.read s st req = (d, none, st') ∧ st'.pos = st.pos + d ∧ st'.pos ≤ k ∧ d ≤ req ∧
+      st'.chunks.length + (k - st'.pos) < st.chunks.length + (k - st.pos) := by
+  have hav : avail s st.pos = k - st.pos := by
+    simp only [avail, hs]
+    rw [if_pos (by omega)]
+    omega
+  have hd1 : readD s st req ≤ req := by simp only [readD]; omega
+  have hd2 : readD s st req ≤ k - st.pos := by simp only [readD, hav]; omega
+  have hmeas : (chunkOf st req).2.length + (k - (st.pos + readD s st req)) < st.chunks.length + (k - st.pos) := by
+    cases hc : st.chunks with
+    | nil =>
+      have : readD s st req = min req (k - st.pos) := by simp [readD, chunkOf, hc, hav]
+      simp only [chunkOf, hc, List.length_nil]; omega
+    | cons c cs => simp only [chunkOf, hc, List.length_cons]; omega
+  unfold Reader.read
+  have h1 : (s.errAt == some st.pos) = false := by
+    rw [hs]; simp; omega
+  have h2 : ¬ (st.pos ≥ s.content.length) := by omega
+  simp only [h1, Bool.false_eq_true, ↓reduceIte, h2]
+  have hc : (s.eofWithData && decide (readD s st req > 0) && (st.pos + readD s st req == s.content.length) &&
+      (s.errAt != some (st.pos + readD s st req))) = false := by
+    have : (st.pos + readD s st req == s.content.length) = false := by simp; omega
+    simp [this]
+  refine ⟨readD s st req, { pos := st.pos + readD s st req, chunks := (chunkOf st req).2 }, ?_, rfl, ?_, hd1, hmeas⟩
+  · simp only [hc, Bool.false_eq_true, ↓reduceIte]
+  · simp only; omega
+
+theorem readFullLoop_err (s : Script) (k : Nat) (hs : s.errAt = some k) (hk : k < s.content.length) (l : Nat) (hl : k < l) :
+    ∀ (fuel : Nat) (st : RState), st.pos ≤ k → st.chunks.length + (k - st.pos) + 2 ≤ fuel →
+      readFullLoop s fuel st st.pos l = (k, some .sentinel) := by
+  intro fuel
+  induction fuel with
+  | zero => intro st _ h; omega
+  | succ f ih =>
+    intro st hp hf
+    simp only [readFullLoop]
+    rw [if_neg (by omega)]
+    by_cases he : st.pos = k
+    · rw [read_at_error s k hs st he]
+      simp [he]
+    · obtain ⟨d, st', hr, hpos, hle, _, hmeas⟩ := read_before_err s k hs hk st (l - st.pos) (by omega) (by omega)
+      rw [hr]
+      simp only
+      have := ih st' hle (by omega)
+      rw [hpos] at this
+      exact this
+
+theorem readAllLoop_err (s : Script) (k : Nat) (hs : s.errAt = some k) (hk : k < s.content.length) :
+    ∀ (fuel : Nat) (st : RState), st.pos ≤ k → st.chunks.length + (k - st.pos) + 2 ≤ fuel →
+      readAllLoop s fuel st st.pos = (k, some .sentinel) := by
+  intro fuel
+  induction fuel with
+  | zero => intro st _ h; omega
+  | succ f ih =>
+    intro st hp hf
+    simp only [readAllLoop]
+    by_cases he : st.pos = k
+    · rw [read_at_error s k hs st he]
+      simp [he]
+    · obtain ⟨d, st', hr, hpos, hle, _, hmeas⟩ := read_before_err s k hs hk st (s.content.length + 1) (by omega) (by omega)
+      rw [hr]
+      simp only
+      have := ih st' hle (by omega)
+      rw [hpos] at this
+      exact this
+
+/-- **C05 (errors surface)**: if the reader fails with an error other than end of input at
+    offset `k`, before the end of the data and before the header is complete (no limit, or
+    `k < limit`), then `DetectReader` returns `application/octet-stream` with that error
+    (`none`), having consumed exactly the `k` bytes delivered before the failure — for every
+    chunking of those bytes -/
+theorem reader_error (s : Script) (k : Nat) (hs : s.errAt = some k) (hk : k < s.content.length) (lim : Nat)
+    (hl : lim = 0 ∨ k < lim) : detectReaderInput s lim = (none, k) := by
+  unfold detectReaderInput
+  by_cases h0 : lim = 0
+  · subst h0
+    simp only [beq_self_eq_true, ↓reduceIte]
+    have := readAllLoop_err s k hs hk (s.chunks.length + s.content.length + 2) { pos := 0, chunks := s.chunks }
+      (Nat.zero_le _) (by simp; omega)
+    unfold readAll
+    simp only at this
+    rw [this]
+  · have hb : (lim == 0) = false := by simpa using h0
+    have hkl : k < lim := by rcases hl with h | h; exact absurd h h0; exact h
+    simp only [hb, Bool.false_eq_true, ↓reduceIte]
+    have := readFullLoop_err s k hs hk lim hkl (s.chunks.length + s.content.length + 2) { pos := 0, chunks := s.chunks }
+      (Nat.zero_le _) (by simp; omega)
+    unfold readFull
+    simp only at this
+    rw [this]
+    simp only
+    rw [if_neg (by omega)]
+
 /- non-vacuity: a script with zero-length reads, one-byte reads and EOF-with-data -/
 example : detectReaderInput { content := [1, 2, 3, 4, 5], chunks := [0, 1, 0, 2], eofWithData := true, errAt := none } 4
     = (some [1, 2, 3, 4], 4) := by decide
